@@ -863,6 +863,8 @@ struct BatchStats {
     op_kind_runs: [u64; 14],
     threads_hist: [u64; MAX_TASKS],
     log_digest: u64,
+    /// wrapping sum of per-scenario digests: independent of how scenarios are spread over workers
+    scenario_digest_sum: u64,
 }
 
 fn policy_idx(p: &Policy) -> usize {
@@ -917,6 +919,8 @@ fn cmd_batch(a: &[String]) -> i32 {
         }
         let mut prng = Rng::new(splitmix64(sseed ^ 0x5ced));
         let mut est_len = 40usize;
+        let mut sc_log = Digest::new();
+        sc_log.u64(idx);
         for k in 0..scheds {
             let policy = choose_policy(&mut prng);
             let sched_seed = splitmix64(sseed ^ splitmix64(k + 1));
@@ -955,6 +959,11 @@ fn cmd_batch(a: &[String]) -> i32 {
             log.u64(s.outcome_digest);
             log.u64(s.steps as u64);
             for x in res.schedule.iter() { log.u64(*x as u64); }
+            sc_log.u64(full_sig);
+            sc_log.u64(s.outcome_digest);
+            sc_log.u64(s.steps as u64);
+            sc_log.u64(res.violations.len() as u64);
+            for x in res.schedule.iter() { sc_log.u64(*x as u64); }
             if samples.len() < 3 && s.contended && k >= 1 {
                 samples.push(format!("{{\"scenario\":{},\"policy\":\"{}\",\"schedule\":{},\"seam_events\":{}}}", describe_json(&sc), policy.name(), json_u8_list(&res.schedule), json_events(&res.events[..s.race_phase_events.min(res.events.len())], 60)));
             }
@@ -967,6 +976,7 @@ fn cmd_batch(a: &[String]) -> i32 {
                 }
             }
         }
+        bs.scenario_digest_sum = bs.scenario_digest_sum.wrapping_add(sc_log.finish());
         idx += nworkers;
     }
     bs.log_digest = log.finish();
@@ -994,12 +1004,12 @@ fn cmd_batch(a: &[String]) -> i32 {
     for (i, k) in OP_KINDS.iter().enumerate() { if i > 0 { okr.push(','); } let _ = write!(okr, "\"{}\":{}", k, bs.op_kind_runs[i]); }
     okr.push('}');
     println!(
-        "{{\"worker\":{},\"scenarios\":{},\"scenarios_ref_failed\":{},\"runs\":{},\"steps\":{},\"seam_events\":{},\"distinct_signatures\":{},\"distinct_nontrivial\":{},\"contended_runs\":{},\"once_contended_runs\":{},\"fast_path_reads\":{},\"stalls_configured\":{},\"stalls_triggered\":{},\"stalls_fired\":{},\"stalls_fired_in_init\":{},\"stalls_cut_short\":{},\"losers_blocked_while_winner_stalled\":{},\"late_threads\":{},\"late_after_init\":{},\"late_forced_runs\":{},\"crash_ops\":{},\"crash_during_init\":{},\"multi_depth_ops_contended\":{},\"runs_with_violation\":{},\"first_use_contended\":{},\"constructed\":{},\"policy_runs\":{{\"random\":{},\"sticky\":{},\"pct1\":{},\"pct2\":{},\"pct3\":{}}},\"op_kind_runs\":{},\"threads_hist\":[{}],\"log_digest\":\"{:016x}\",\"samples\":[{}],\"findings\":[{}]}}",
+        "{{\"worker\":{},\"scenarios\":{},\"scenarios_ref_failed\":{},\"runs\":{},\"steps\":{},\"seam_events\":{},\"distinct_signatures\":{},\"distinct_nontrivial\":{},\"contended_runs\":{},\"once_contended_runs\":{},\"fast_path_reads\":{},\"stalls_configured\":{},\"stalls_triggered\":{},\"stalls_fired\":{},\"stalls_fired_in_init\":{},\"stalls_cut_short\":{},\"losers_blocked_while_winner_stalled\":{},\"late_threads\":{},\"late_after_init\":{},\"late_forced_runs\":{},\"crash_ops\":{},\"crash_during_init\":{},\"multi_depth_ops_contended\":{},\"runs_with_violation\":{},\"first_use_contended\":{},\"constructed\":{},\"policy_runs\":{{\"random\":{},\"sticky\":{},\"pct1\":{},\"pct2\":{},\"pct3\":{}}},\"op_kind_runs\":{},\"threads_hist\":[{}],\"log_digest\":\"{:016x}\",\"scenario_digest_sum\":\"{:016x}\",\"samples\":[{}],\"findings\":[{}]}}",
         worker, bs.scenarios, bs.scenarios_ref_failed, bs.runs, bs.steps, bs.events, sigs_all.len(), sigs_nontrivial.len(), bs.contended_runs, bs.once_contended_runs, bs.fast_path_reads,
         bs.stalls_configured, bs.stalls_triggered, bs.stalls_fired, bs.stalls_fired_in_init, bs.stalls_cut_short, bs.losers_blocked_while_winner_stalled, bs.late_threads, bs.late_after_init, bs.late_forced_runs, bs.crash_ops, bs.crash_during_init,
         bs.multi_depth_ops_contended, bs.runs_with_violation, arr2(&bs.first_use_contended), arr2(&bs.constructed),
         bs.policy_runs[0], bs.policy_runs[1], bs.policy_runs[2], bs.policy_runs[3], bs.policy_runs[4], okr,
-        bs.threads_hist.iter().map(|x| x.to_string()).collect::<Vec<_>>().join(","), bs.log_digest, samples.join(","), findings.join(",")
+        bs.threads_hist.iter().map(|x| x.to_string()).collect::<Vec<_>>().join(","), bs.log_digest, bs.scenario_digest_sum, samples.join(","), findings.join(",")
     );
     0
 }
